@@ -14,6 +14,8 @@ def describe(ck):
     ck.rule("R15a", "write_msa_msf: the length printed after 'MSF:' and every 'Len:' has the same source as the bound that ends row emission")
     ck.rule("R15b", "write_msa_msf: every GCG checksum is taken over that same span of the row it is printed for; the overall check sums all rows")
     ck.rule("R15c", "write_msa_msf: every banner (!!AA/!!NA) and 'Type:' (P/N) choice, evaluated in the two (biotype, L) states kalign_run leaves behind, labels protein as protein and nucleotide as nucleic")
+    ck.rule("R15d", "the GCG checksum accumulators are reduced in every iteration (or are 64 bit): no overflow for long rows")
+    ck.rule("R15e", "row emission covers exactly [0, alnlen): FASTA prints every column in a counted loop; the block writers emit one residue per cursor step and leave both loops exactly on cursor == alnlen (other loop shapes: no verdict)")
     ck.not_decided += ["wrapping at 60 columns and block completeness (loop arithmetic over run-time widths)",
                        "the checksum arithmetic itself (overflow for extreme widths)"]
 
@@ -240,6 +242,120 @@ def run(ck, progs):
     describe(ck)
     for cfg, prog in progs.items():
         ck.attempt(r15, ck, prog)
+        ck.attempt(r15d, ck, prog)
+        ck.attempt(r15e, ck, prog)
     return ("Reaching-definition agreement inside write_msa_msf between the header's declared length, the checksum spans "
             "and the bound that terminates row emission; pairing of Name: and Check: on the same sequence index; the "
             "predicate that selects banner and Type:.")
+
+
+# --------------------------------------------------------------------------- R15d / R15e
+def r15d(ck, prog):
+    """the per-row checksum accumulator stays bounded: a 32-bit accumulator must be reduced in every
+    iteration, otherwise rows of ~150k columns overflow it (UB, wrong declared checksum)"""
+    n = 0
+    for F in prog.lib_functions():
+        if not F.name.startswith("GCGchecksum"):
+            continue
+        for lp in F.body.find("ForStmt"):
+            from ..affine import loop_range
+            rng = loop_range(lp)
+            if rng is None or rng[2].is_const():
+                continue
+            body = lp.child("body")
+            accs = {}
+            for a in body.walk():
+                if a.k == "BinaryOperator" and a.d["op"] == "=" and a.kids[0].strip().k == "DeclRefExpr":
+                    v = a.kids[0].strip()
+                    if any(r.d["did"] == v.d["did"] for r in a.kids[1].find("DeclRefExpr")):
+                        accs[v.d["did"]] = (v, a, a.kids[1])
+                elif a.k == "CompoundAssignOperator" and a.d["op"] in ("+=", "*=", "-=") and a.kids[0].strip().k == "DeclRefExpr":
+                    v = a.kids[0].strip()
+                    accs[v.d["did"]] = (v, a, None)
+            for did, (v, a, rhs) in accs.items():
+                n += 1
+                where = site(prog, a, v.text())
+                bits = 64 if v.ty in ("long", "unsigned long", "long long", "unsigned long long") else 32
+                reduced = rhs is not None and rhs.strip(casts=True).k == "BinaryOperator" and rhs.strip(casts=True).d["op"] in ("%", "&") and \
+                    rhs.strip(casts=True).kids[1].cv is not None
+                ck.inst("R15d", where, "%s: accumulator %s (%d bit) over a loop of run-time length: %s" % (
+                    F.name, v.text(), bits, "reduced every iteration" if reduced else "not reduced"), prog.config)
+                if bits < 64 and not reduced:
+                    ck.violation("R15d", "R15d/%s/%s" % (F.name, v.text()), where,
+                                 "%s accumulates into the %d-bit %s without reducing it in each iteration (%s): rows beyond "
+                                 "~150 000 columns overflow it and the declared checksum is wrong" % (F.name, bits, v.text(), a.text()[:60]),
+                                 prog.config)
+    ck.floor("R15d", n, 1, "checksum accumulators")
+
+
+def r15e(ck, prog):
+    """row emission covers exactly the alignment length, for the loop shapes the rule can decide;
+    any other shape is 'no verdict' (exit 2), never a pass"""
+    from ..affine import loop_range, lin, single_defs
+    from ..build import AnalysisBroken
+    # FASTA: residues printed one by one
+    W = prog.fn("write_msa_fasta")
+    done = 0
+    for c in W.body.calls("fprintf", "fputc", "putc"):
+        args = [a for a in c.args if a.strip(casts=True).k == "ArraySubscriptExpr" and _seq_origin(W, a.strip(casts=True))]
+        if not args:
+            continue
+        idx = args[0].strip(casts=True).kids[1].strip(casts=True)
+        loops = [x for x in c.ancestors() if x.k == "ForStmt"]
+        rng = loop_range(loops[0], single_defs(W)) if loops else None
+        if rng is None or idx.text() != rng[0]:
+            raise AnalysisBroken("R15e: residue emission loop of write_msa_fasta has an unrecognised shape")
+        done += 1
+        lo, hi = rng[1], rng[2]
+        ok = lo.is_const() and lo.c == 0 and hi.c == 0 and list(hi.t.items()) == [("msa->alnlen", 1)]
+        ck.inst("R15e", site(prog, loops[0], "fasta row"), "write_msa_fasta prints columns [%s, %s) of every row" % (lo, hi), prog.config)
+        if not ok:
+            ck.violation("R15e", "R15e/write_msa_fasta/coverage", site(prog, loops[0]),
+                         "write_msa_fasta prints columns [%s, %s) instead of [0, alnlen)" % (lo, hi), prog.config)
+    if not done:
+        raise AnalysisBroken("R15e: write_msa_fasta no longer prints residues one by one in a counted loop; "
+                             "coverage of all alnlen columns cannot be decided for the new shape")
+    # block writers: cursor-controlled emission
+    for name in ("write_msa_clu", "write_msa_msf"):
+        F = prog.fn(name)
+        cursors, bounds = body_bound(prog, F)
+        if len(cursors) != 1:
+            raise AnalysisBroken("R15e: %s: row cursor not unique (%s)" % (name, cursors))
+        did, cname = list(cursors.items())[0]
+        mods = []
+        for a in F.body.walk():
+            if a.k == "UnaryOperator" and a.d["op"] in ("++", "--") and a.kids[0].strip().k == "DeclRefExpr" and a.kids[0].strip().d["did"] == did:
+                mods.append(("inc", a))
+            elif a.k in ("BinaryOperator", "CompoundAssignOperator") and (a.d["op"] == "=" or a.k == "CompoundAssignOperator") and \
+                    a.kids[0].strip().k == "DeclRefExpr" and a.kids[0].strip().d["did"] == did:
+                mods.append(("set" if a.k == "BinaryOperator" else "step", a))
+        incs = [a for k, a in mods if k == "inc" and a.d["op"] == "++"]
+        sets = [a for k, a in mods if k == "set"]
+        other = [a for k, a in mods if k == "step" or (k == "inc" and a.d["op"] == "--")]
+        stores = [a for a in F.body.find("BinaryOperator") if a.d["op"] == "=" and a.kids[1].strip(casts=True).k == "ArraySubscriptExpr" and
+                  a.kids[1].strip(casts=True).kids[1].strip(casts=True).k == "DeclRefExpr" and
+                  a.kids[1].strip(casts=True).kids[1].strip(casts=True).d["did"] == did]
+        where = site(prog, stores[0] if stores else F, "%s cursor" % cname)
+        eq_tests = [b for b, e in bounds if b.d["op"] == "==" and reaching_sources(F, e) == {"msa->alnlen"}]
+        # the block loop: the loop around the store that is not the 60-column loop
+        loops = [x for x in stores[0].ancestors() if x.k in ("ForStmt", "WhileStmt", "DoStmt")] if stores else []
+        shape_ok = (len(stores) == 1 and len(incs) == 1 and not other and all(const_value(s.kids[1]) == 0 for s in sets) and
+                    len(loops) >= 2 and loops[1].k == "WhileStmt" and const_value(loops[1].child("cond")) == 1)
+        if not shape_ok:
+            raise AnalysisBroken("R15e: the block loop of %s is not the recognised cursor-controlled shape (one store row[f], one f++, "
+                                 "while(1) left on f == alnlen); block coverage cannot be decided for the new shape" % name)
+        inner, block = loops[0], loops[1]
+        # inner loop: exit test f == alnlen precedes the store; block loop: a break under f == alnlen
+        inner_tests = [t for t in eq_tests if t.within(inner)]
+        block_tests = [t for t in eq_tests if t.within(block) and not t.within(inner)]
+        brk = any(any(x.k == "BreakStmt" for x in t.parent.child("then").walk()) for t in block_tests if t.parent.k == "IfStmt" and t.parent.child("then") is not None)
+        cfg = F.cfg
+        pre = bool(inner_tests) and not cfg.reaches(cfg.position(inner.child("cond")), cfg.position(stores[0]), avoid=[cfg.position(t) for t in inner_tests])
+        inc_after = cfg.reaches(cfg.position(stores[0]), cfg.position(incs[0])) and stores[0].parent is incs[0].parent
+        ck.inst("R15e", where, "%s: one residue per f++, inner exit on f==alnlen before the store: %s, block loop left on f==alnlen: %s" % (
+            name, pre, brk), prog.config)
+        if not (pre and brk and inc_after):
+            ck.violation("R15e", "R15e/%s/blocks" % name, where,
+                         "%s does not stop emitting exactly when the cursor reaches alnlen (inner test before store: %s, block loop "
+                         "break on f==alnlen: %s, f++ right after the store: %s): rows are cut short or padded with an empty block" % (
+                             name, pre, brk, inc_after), prog.config)
